@@ -755,7 +755,20 @@ impl Curve2 {
     ///
     /// returns: Curve2
     pub fn simplify(&self, tol: f64) -> Self {
-        let new_points = ramer_douglas_peucker(self.line.vertices(), tol);
+        // A curve may be closed by its last vertex lying within tolerance of the first rather than on
+        // it. The simplification is then decided on an exactly closed copy (otherwise a large
+        // tolerance reduces the loop to its two nearly coincident ends and nothing is left), and
+        // the original last vertex is put back afterwards
+        let mut vertices = self.line.vertices().to_vec();
+        let last_vertex = vertices[vertices.len() - 1];
+        if self.is_closed {
+            let last = vertices.len() - 1;
+            vertices[last] = vertices[0];
+        }
+        let mut new_points = ramer_douglas_peucker(&vertices, tol);
+        if let Some(p) = new_points.last_mut() {
+            *p = last_vertex;
+        }
         Curve2::from_points(&new_points, self.tol, self.is_closed).unwrap()
     }
 
